@@ -493,7 +493,12 @@ class Gen:
             lbl = ''
             if self.labels and rng.random() < 0.5:
                 lbl = rng.choice(self.labels)
-                e.sp(); e.w(lbl)
+                if rng.random() < 0.3:
+                    # a comment between the keyword and its label: the label stays the label
+                    e.w(rng.choice([' /* leave */ ', ' // next' + e.nl + ' ']))
+                else:
+                    e.sp()
+                e.w(lbl)
             e.tight(); e.w(';')
             txt = self.src_between(s[0], e.n)
             self.record(k, s, label=lbl, text=txt)
